@@ -208,4 +208,16 @@ SPECS = {
   "exhaustive_note": "every (script, step, stop kind) quiesced stop point is enumerated on every run; the instant sweep covers every event instant of the dry runs",
   "assumptions": ENGINE_V + ["the race detector only reports races on executed paths with both accesses in its shadow history; a clean pass is not race freedom"],
  },
+
+ "C01": {
+  "level": "exploration",
+  "passes": [fsm("^TestC01$")],
+  "rule": "one case = one seeded adversarial world: 1-3 peers (passive/active, hold 0/3/9/90, idle-hold 1ms..5s, local or remote dominant), outbound dials refused/stalled/accepted (with latency), inbound connections arriving concurrently (some with 1-5 byte reads or injected read/write errors), "
+          "every connection driven by a random remote script over {valid OPEN, invalid OPEN, KEEPALIVE, UPDATE(conn,idx), Cease, other NOTIFICATION, garbage, half message, close, RST, pauses from 0 to 10 virtual seconds}, 60% of them completing a handshake first; meanwhile AddPeer/DeletePeer and finally Close. "
+          "Even cases: seeded virtual delays at all schedule points, registry calls by the director only; odd cases: runtime.Gosched bursts at schedule points, one concurrent API actor per peer plus ungated arrivals. "
+          "Oracle: online plugin automaton per peer (alternation, no overlap, handler only between OnEstablished return and OnClose, exactly one OnClose by Close/DeletePeer return, nothing afterwards) + offline join: every OPEN on the wire carries a nonce issued by exactly one earlier GetCapabilities call of that peer, "
+          "no nonce on two connections, GetCapabilities calls without an OPEN only as many as connections that ended without one, OnOpenMessage at most once per connection and after corebgp's OPEN on it, each session's UPDATEs from one connection in order, transition log never has both FSMs established. "
+          "non-trivial = at least one session established; distinct = distinct transition/callback traces.",
+  "assumptions": ENGINE_V + ["schedules are sampled (Go scheduler on 4 threads + seeded delays), not enumerated"],
+ },
 }
